@@ -24,6 +24,12 @@ def res(ob, name, status, queries=(), detail='', key=None, witness=None, replay_
     return r
 
 
+def _dbg(*a):
+    import os, sys
+    if os.environ.get('VERIF_DEBUG'):
+        print('DBG', *a, file=sys.stderr, flush=True)
+
+
 def zabs(e):
     return z3.If(e >= 0, e, -e)
 
@@ -89,6 +95,7 @@ def decide_close(ob, name, p, code, ref, tol, *, domain=None, oracle=None, make_
     goal = (cz == rz) if tol == 0 else (zabs(cz - rz) <= tolz)
     v = solve.prove(conds, goal, timeout_s=timeout_s, seed=seed)
     qs = [qrec('Q1' if tol == 0 else 'Q2', v)]
+    _dbg(ob, name, v)
     if v.status == 'unsat':
         return res(ob, name, 'proved', qs, detail, paths=paths)
     # witness search
